@@ -31,6 +31,15 @@ package engine
 //@   requires [cursor_rewound_before_each_shard] cursorRewound(0)
 //@   ensures !cursorRewound(0)
 
+// ---- C06 (engine, "with all their holder shards recorded"): the merge appends a further holder
+// to an item's list in place. The lists handed out for the first shard's page must therefore be
+// lists of their own - one holder, no spare capacity shared with a neighbour: a list cut out of
+// a common array without a capacity bound lets the append for one object overwrite the first
+// holder of the next.
+//@ func mergeListResults
+//@   property C06
+//@   loop 1 iteration [first_holder_list_has_no_capacity_beyond_itself] len(b[old(rangeiter)].ShardIDs) == 1 && cap(b[old(rangeiter)].ShardIDs) == 1
+
 // ---- C19: evacuation. For every object listed on a source shard the pass goes on to the next
 // object only if some shard outside the evacuated set accepted it (or already had it), or the
 // fault handler took it, or reading it failed and errors are ignored by request; otherwise
